@@ -118,8 +118,10 @@ impl AliasParser {
             return None
         }
         let token = self.eat();
+        // a deromaniser's string is compared with word text, and word text is normalised before it is read
+        let value = if self.kind == AliasKind::Deromaniser { crate::normalise(&token.value) } else { token.value };
 
-        Some(AliasItem::new(AliasParseElement::Replacement(token.value, plus), token.position))
+        Some(AliasItem::new(AliasParseElement::Replacement(value, plus), token.position))
     }
 
     fn get_replacements(&mut self) -> Result<Vec<AliasItem>, AliasSyntaxError> {
